@@ -87,6 +87,43 @@ let () =
       let ((acts, st'), p) = ipv6cp_input (unhex iid) (n_of_int (int_of_string st)) (List.init 8 (fun _ -> N0)) oracle
           (n_of_int (int_of_string id)) (unhex wire) in
       Printf.printf "%s ; st=%d ; P=%s\n" (show_acts ~sugg:true acts) (int_of_n st') (hexs p)
+    | "hi" :: pa :: d1 :: d2 :: ops ->
+      let s0 = { io_cfg = ipcp_cfg_of pa d1 d2; io_peer = ipeer0 } in
+      let (outs, s) = List.fold_left (fun (acc, s) tok ->
+          let tl = String.sub tok 1 (String.length tok - 1) in
+          let op = match tok.[0] with
+            | 'q' -> IReq (opts_of tl) | 'a' -> IAck (opts_of tl) | 'n' -> INak (opts_of tl) | 'j' -> IRej (opts_of tl)
+            | 'P' -> ISetPeer (ip_tok tl) | 'L' -> ISetAddr (ip_tok tl)
+            | 'D' -> (match String.split_on_char '/' tl with [x; y] -> ISetDNS (ip_tok x, ip_tok y) | _ -> failwith "D")
+            | _ -> failwith "op" in
+          let (s', r) = iobj_step fl s op in
+          let o = match r with Some r -> show_res r | None -> "B=" ^ show_opts (build_confreq s'.io_cfg) in
+          (o :: acc, s')) ([], s0) ops in
+      print_endline (String.concat " | " (List.rev outs) ^ " ; P=" ^ show_ipeer s.io_peer)
+    | "hl" :: magic :: ops ->
+      let (outs, s) = List.fold_left (fun (acc, s) tok ->
+          let tl = String.sub tok 1 (String.length tok - 1) in
+          let op = match tok.[0] with
+            | 'q' -> LReq (opts_of tl) | 'a' -> LAck (opts_of tl) | 'n' -> LNak (opts_of tl) | 'j' -> LRej (opts_of tl)
+            | 'M' -> LSetMagic (n_of_decimal tl) | 'U' -> LSetMRU (n_of_decimal tl)
+            | 'T' -> (match String.split_on_char '/' tl with [x; y] -> LSetAuth (n_of_decimal x, n_of_decimal y) | _ -> failwith "T")
+            | _ -> failwith "op" in
+          let (s', r) = lobj_step fl s op in
+          let o = match r with Some r -> show_res r | None -> "B=" ^ show_opts (lcp_build s') in
+          (o :: acc, s')) ([], lobj0 (n_of_decimal magic)) ops in
+      print_endline (String.concat " | " (List.rev outs) ^ " ; P=" ^ show_lpeer s.lo_peer)
+    | "h6" :: iid :: ops ->
+      let s0 = { vo_local = unhex iid; vo_rej = []; vo_peer = List.init 8 (fun _ -> N0) } in
+      let (outs, s) = List.fold_left (fun (acc, s) tok ->
+          let tl = String.sub tok 1 (String.length tok - 1) in
+          let op = match tok.[0] with
+            | 'q' -> VReq (opts_of tl, oracle) | 'a' -> VAck (opts_of tl) | 'n' -> VNak (opts_of tl) | 'j' -> VRej (opts_of tl)
+            | 'I' -> VSetID (unhex tl)
+            | _ -> failwith "op" in
+          let (s', r) = v6obj_step s op in
+          let o = match r with Some r -> show_res ~sugg:true r | None -> "B=" ^ show_opts (v6_build s') in
+          (o :: acc, s')) ([], s0) ops in
+      print_endline (String.concat " | " (List.rev outs) ^ " ; P=" ^ hexs s.vo_peer)
     | "sess" :: aaa :: evs ->
       let s0 = sess_start fl (if aaa = "none" then None else Some (unhex aaa)) in
       let first = "scr:" ^ show_opts s0.s_lastreq ^ " a=" ^ show_addr s0.s_addr ^ " pa=" ^ show_addr s0.s_cfg.ic_assigned in
@@ -96,12 +133,13 @@ let () =
             else if ev.[0] = 'a' then EvAckW (unhex tl)
             else if ev.[0] = 'n' then EvNak (unhex tl)
             else if ev.[0] = 'j' then EvRej (unhex tl)
+            else if ev.[0] = 'R' then EvReauth (if tl = "none" then None else Some (unhex tl))
             else
               let i = String.index ev '.' in
               EvReq (n_of_int (int_of_string (String.sub ev 1 (i - 1))),
                      unhex (String.sub ev (i + 1) (String.length ev - i - 1))) in
           let (s', acts) = sess_step fl s e in
-          (Printf.sprintf "%s up=%d a=%s" (show_acts ~callbacks:false ~req:(Some s'.s_lastreq) acts) (if s'.s_open then 1 else 0) (show_addr s'.s_addr) :: acc, s'))
+          (Printf.sprintf "%s up=%d a=%s pa=%s" (show_acts ~callbacks:false ~req:(Some s'.s_lastreq) acts) (if s'.s_open then 1 else 0) (show_addr s'.s_addr) (show_addr s'.s_cfg.ic_assigned) :: acc, s'))
           ([first], s0) evs in
       print_endline (String.concat " | " (List.rev outs))
     | _ -> print_endline "badline"
